@@ -10,6 +10,7 @@ func init() {
 			"(PREALLOC) a trip's StopTimes is replaced by a pre-allocated slice only while it is still empty, so interleaved rows lose nothing -- also when the store sits in a closure or helper that the row loop calls (any store into a slice field of an entity that outlives the row must extend the field's own value or be guarded by its emptiness); (CACHE) the current-trip cache changes pointer and key together, from one lookup; (KEY) a string map key put together from several variable parts has a constant separator between them (otherwise two rows can collide and row order decides which survives). " +
 			"(PHASE) no collection of the result is sorted in a later phase of the file table than one in which addresses of its elements were kept (the sort would move other entities under those pointers). Not decided: sort.Slice itself; equal sequence numbers (excluded by the property). The row layer hands each parser the record of the current row only (no cells of an earlier row), and integer parses keep sign and width.",
 		Rules: []Rule{
+			{Name: "ROWSTATE", Doc: "nothing recorded about one row (its missing keys) is still there when the next row is current: whether a row is kept does not depend on the row before it", MinInstances: 1, Run: runRowState},
 			{Name: "A4", Doc: "the row a parser reads is the row of the file (no cells of an earlier row: what a row yields does not depend on the rows before it)", MinInstances: 1, Run: func(c *Ctx) { runReaderDiscipline(c); csvSideObligations(c) }},
 			{Name: "SCAN", Doc: "a loop that does something for each element is not left early (no break out of a processing loop)", MinInstances: 1, Run: func(c *Ctx) { runFullScan(c, staticParseFns(c), "SCAN") }},
 			{Name: "NUM", Doc: "sequence numbers are parsed at the width they are stored at (strconv rejects what does not fit): distinct sequence numbers stay distinct sort keys", MinInstances: 2, Run: func(c *Ctx) { runNumericDecoders(c, staticParseFns(c), "NUM") }},
